@@ -76,20 +76,14 @@ impl<T: RtpsWriter> DataWriterEntity<T> {
         message_writer: &(impl WriteMessage + ?Sized),
         runtime: &impl DdsRuntime,
     ) -> DdsResult<()> {
-        if !self
+        let is_new_instance = !self
             .registered_instance_info
             .iter()
-            .any(|x| x.instance_handle == sample_instance_handle)
+            .any(|x| x.instance_handle == sample_instance_handle);
+        if is_new_instance
+            && self.registered_instance_info.len() >= self.qos.resource_limits.max_instances
         {
-            if self.registered_instance_info.len() < self.qos.resource_limits.max_instances {
-                self.registered_instance_info.push(RegisteredInstanceInfo {
-                    instance_handle: sample_instance_handle,
-                    last_write_time: None,
-                    samples: VecDeque::new(),
-                });
-            } else {
-                return Err(DdsError::OutOfResources);
-            }
+            return Err(DdsError::OutOfResources);
         }
 
         if let Length::Limited(max_samples_per_instance) =
@@ -124,6 +118,16 @@ impl<T: RtpsWriter> DataWriterEntity<T> {
             if total_samples >= max_samples as usize {
                 return Err(DdsError::OutOfResources);
             }
+        }
+
+        // Every limit has been checked: only now the new instance is registered, so that a
+        // refused write leaves nothing behind
+        if is_new_instance {
+            self.registered_instance_info.push(RegisteredInstanceInfo {
+                instance_handle: sample_instance_handle,
+                last_write_time: None,
+                samples: VecDeque::new(),
+            });
         }
 
         self.last_change_sequence_number += 1;
